@@ -64,6 +64,8 @@ class FnLower:
         self.closure = closure
         self.caught_stack = []
         self.last_loc = None
+        self.cond_stack = []
+        self.hoisted = set()
         self.nkinds = {}
         self.ret_kind = 'void'
         self.noexcept = False
@@ -122,6 +124,40 @@ class FnLower:
             self.frames[-1].append(e)
         else:
             self.scopes[-1]['entries'].append(e)
+
+    # ---- class temporaries; inside a conditionally evaluated operand the declaration is hoisted
+    # in front of the conditional and guarded by a liveness flag (the temporary lives until the end
+    # of the full-expression, but only exists if its branch was taken)
+    def enter_cond(self):
+        self.cond_stack.append(len(self.lines))
+
+    def leave_cond(self):
+        return self.cond_stack.pop()
+
+    def new_class_temp(self, q, prefix='tmp'):
+        t = self.fresh(prefix)
+        decl = '%s %s;' % (self.L.ctype(q), t)
+        if self.cond_stack and self.L.needs_dtor(q):
+            i = self.cond_stack[0]
+            self.lines.insert(i, '  ' * self.ind + decl + ' _Bool %s_live = 0;' % t)
+            self.cond_stack = [x + 1 for x in self.cond_stack]
+            self.hoisted.add(t)
+        else:
+            self.emit(decl)
+        return t
+
+    def temp_done(self, q, t, where='frame'):
+        if not self.L.needs_dtor(q):
+            return
+        if t in self.hoisted:
+            if where != 'frame':
+                raise Unsupported('lifetime-extended temporary inside a conditional operand')
+            self.emit('%s_live = 1;' % t)
+            code = 'if (%s_live) %s__dtor(&%s);' % (t, self.L.class_cname(q), t)
+            self.calls.add(self.L.class_cname(q) + '__dtor')
+            self.frames[-1].append({'code': code, 'nrvo': None})
+        else:
+            self.reg_dtor(q, '&' + t, where)
 
     def cleanup_lines(self, mode, skip_nrvo=None):
         """mode: 'exc' | 'ret' | 'loop' -> list of C statements"""
@@ -289,10 +325,11 @@ class FnLower:
                 return self.rv(ks[1])
             if op in ('&&', '||'):
                 a = self.rv(ks[0])
-                mark = len(self.lines)
+                self.enter_cond()
                 self.ind += 1
                 b = self.rv(ks[1])
                 self.ind -= 1
+                mark = self.leave_cond()
                 if len(self.lines) == mark:
                     return '(%s %s %s)' % (a, op, b)
                 sub = self.lines[mark:]
@@ -319,6 +356,7 @@ class FnLower:
             t = self.fresh()
             ty = self.L.ctype(qt(n))
             self.emit('%s %s;' % (ty, t))
+            self.enter_cond()
             self.emit('if (%s) {' % c)
             self.ind += 1
             self.emit('%s = %s;' % (t, self.rv(ks[1])))
@@ -328,6 +366,7 @@ class FnLower:
             self.emit('%s = %s;' % (t, self.rv(ks[2])))
             self.ind -= 1
             self.emit('}')
+            self.leave_cond()
             return t
         if k in CALL_KINDS:
             return self.call(n, mode='rv')
@@ -480,19 +519,20 @@ class FnLower:
         if k == 'MaterializeTemporaryExpr':
             c = ks[0]
             q = qt(n)
-            t = self.fresh('tmp')
             where = 'scope' if n.get('storageDuration') == 'automatic' else 'frame'
             if self.L.is_class(q):
-                self.emit('%s %s;' % (self.L.ctype(q), t))
+                t = self.new_class_temp(q, 'tmp')
                 self.into(c, '&' + t)
-                self.reg_dtor(q, '&' + t, where)
+                self.temp_done(q, t, where)
             else:
+                t = self.fresh('tmp')
                 self.emit('%s %s = %s;' % (self.L.ctype(q), t, self.rv(c)))
             return '&' + t
         if k == 'ConditionalOperator':
             c = self.rv(ks[0])
             t = self.fresh('p')
             self.emit('%s* %s;' % (self.L.ctype(qt(n)), t))
+            self.enter_cond()
             self.emit('if (%s) {' % c)
             self.ind += 1
             self.emit('%s = %s;' % (t, self.lv(ks[1])))
@@ -502,6 +542,7 @@ class FnLower:
             self.emit('%s = %s;' % (t, self.lv(ks[2])))
             self.ind -= 1
             self.emit('}')
+            self.leave_cond()
             return t
         if k == 'ArraySubscriptExpr':
             return '&%s[%s]' % (self.rv(ks[0]), self.rv(ks[1]))
@@ -543,6 +584,7 @@ class FnLower:
             return self.call(n, mode='into', dest=dest)
         if k == 'ConditionalOperator':
             c = self.rv(ks[0])
+            self.enter_cond()
             self.emit('if (%s) {' % c)
             self.ind += 1
             self.into(ks[1], dest)
@@ -552,6 +594,7 @@ class FnLower:
             self.into(ks[2], dest)
             self.ind -= 1
             self.emit('}')
+            self.leave_cond()
             return
         if k == 'LambdaExpr':
             return self.lambda_into(n, dest)
@@ -668,11 +711,9 @@ class FnLower:
         if self.is_glvalue(a):
             return self.lv(a)
         if self.L.is_class(q):
-            inner = self.strip_parens(a)
-            t = self.fresh('arg')
-            self.emit('%s %s;' % (self.L.ctype(q), t))
+            t = self.new_class_temp(q, 'arg')
             self.into(a, '&' + t)
-            self.reg_dtor(q, '&' + t, 'frame')
+            self.temp_done(q, t, 'frame')
             return '&' + t
         e = self.rv(a)
         return e
@@ -812,8 +853,7 @@ class FnLower:
             if mode == 'into':
                 args.append(dest)
             else:
-                tmp_ret = self.fresh('rv')
-                self.emit('%s %s;' % (self.L.ctype(q), tmp_ret))
+                tmp_ret = self.new_class_temp(q, 'rv')
                 args.append('&' + tmp_ret)
         if info.get('selfp') is not None:
             args.append(info['selfp'])
@@ -827,7 +867,7 @@ class FnLower:
             if not noex:
                 self.exc_check()
             if tmp_ret is not None:
-                self.reg_dtor(q, '&' + tmp_ret, 'frame')
+                self.temp_done(q, tmp_ret, 'frame')
                 if mode == 'discard':
                     return None
                 raise Unsupported('class prvalue call result used as ' + mode)
@@ -931,10 +971,9 @@ class FnLower:
             return
         q = qt(n)
         if self.L.is_class(q):
-            t = self.fresh('tmp')
-            self.emit('%s %s;' % (self.L.ctype(q), t))
+            t = self.new_class_temp(q, 'tmp')
             self.into(n, '&' + t)
-            self.reg_dtor(q, '&' + t, 'frame')
+            self.temp_done(q, t, 'frame')
             return
         e = self.rv(n)
         if e and not re.match(r'^[\w\d]+$', e) and e != '((void)0)':
